@@ -259,7 +259,12 @@ def run(ctx, rep):
             ev_false = lambda b_, e_: False if (e_[0] == "call" and re.search(r"has_data$", e_[1])) else None
             good = []
             for h in hd:
-                r_ = pathsens.reachable_under(PR, lambda b_, bb_: None, eval_expr=ev_false, start_bb=h)
+                # this lookup answered "not indexed"; what later lookups answer is open (a miss followed by a hit must not
+                # re-enable the copy)
+                th_ = PR.term(h)
+                if th_.get("to") is None or len(th_["dest"]) != 1:
+                    continue
+                r_ = pathsens.reachable_under(PR, lambda b_, bb_: None, start_bb=th_["to"], start_state={("b", th_["dest"][0]): False})
                 nx = [bb for bb, t in PR.calls() if "callee" in t and re.search(r"Iterator>::next$", callee(t)) and C.can_reach(PR, bb, h) and C.can_reach(PR, h, bb)]
                 before = bool(nx) and all(C.dominates(PR, n_, clone_from[0]) for n_ in nx[:1])
                 if clone_from[0] not in r_ and C.can_reach(PR, h, clone_from[0]) and before:
